@@ -42,6 +42,7 @@ type inferred struct {
 	unexpected []string // failing obligations of an overridden function that are not listed
 	expectedHit []string
 	lastTry bool
+	pureReason string // the obligation that failed when the function was tried as PURE
 	keepsMode bool // (Context, error) results: on success the returned context has the DontAutoCreate of the incoming one
 	allBad  []string
 	con     *Contract
@@ -275,6 +276,9 @@ func (P *Program) inferFramesWith(roots []*ssa.Function, timeoutMs int, override
 				continue
 			}
 			if r.Obl.Kind == "post" && strings.HasPrefix(r.Obl.Expr, "keeps-mode") {
+				if dbg := os.Getenv("YQV_INFER_TRACE"); dbg != "" && strings.Contains(P.relName(f), dbg) {
+					fmt.Fprintf(os.Stderr, "TRACE %s keeps-mode verdict %s %v notes=%v\n", P.relName(f), r.Res.Verdict, r.Res.All, vc.Notes)
+				}
 				freshBad = append(freshBad, -1)
 			} else if r.Obl.Kind == "post" {
 				var k int
@@ -291,6 +295,9 @@ func (P *Program) inferFramesWith(roots []*ssa.Function, timeoutMs int, override
 	}
 	demote := func(inf *inferred, reason string) {
 		inf.reason = reason
+		if inf.class == clsPure && inf.subset == 0 {
+			inf.pureReason = reason
+		}
 		switch {
 		case inf.class == clsPure && inf.subset == 0 && inf.ctxName != "":
 			inf.class = clsROIf
@@ -459,16 +466,24 @@ func anyTrue(b []bool) bool {
 }
 
 // readonlyHandlers: the handlers of the operators listed in tables/readonly_ops.json.
-func (P *Program) readonlyHandlers() []*ssa.Function {
+func (P *Program) readonlyHandlers() []*ssa.Function { return P.handlersOf("ops") }
+
+func (P *Program) handlersOf(key string) []*ssa.Function {
 	data, err := os.ReadFile(P.verif + "/tables/readonly_ops.json")
 	if err != nil {
 		return nil
 	}
-	var t struct {
-		Ops []string `json:"ops"`
-	}
-	if err := jsonUnmarshal(data, &t); err != nil {
+	var raw map[string]interface{}
+	if err := jsonUnmarshal(data, &raw); err != nil {
 		return nil
+	}
+	var t struct{ Ops []string }
+	if l, ok := raw[key].([]interface{}); ok {
+		for _, x := range l {
+			if s, ok := x.(string); ok {
+				t.Ops = append(t.Ops, s)
+			}
+		}
 	}
 	tab, _ := P.opTypeTable()
 	h := map[string]string{}
